@@ -376,6 +376,8 @@ class Fn:
                     atoms.add(("lit", int(k["v"])))
                 elif "str" in k:
                     atoms.add(("str", k["str"]))
+                elif "::" in k.get("s", "") and "fn" not in k:
+                    atoms.add(("cval", k["s"].replace("const ", "")))
 
         caps = self.captures()
 
